@@ -28,7 +28,55 @@ impl<'de> Deserialize<'de> for Pairs {
     }
 }
 
+/// A mapping read as pairs whose keys are sequences of span-carrying strings.
+#[derive(Debug)]
+struct SeqKeyPairs(Vec<(Vec<Spanned<String>>, i64)>);
+impl<'de> Deserialize<'de> for SeqKeyPairs {
+    fn deserialize<D: Deserializer<'de>>(d: D) -> Result<Self, D::Error> {
+        struct V;
+        impl<'de> Visitor<'de> for V {
+            type Value = SeqKeyPairs;
+            fn expecting(&self, f: &mut std::fmt::Formatter) -> std::fmt::Result {
+                f.write_str("a mapping")
+            }
+            fn visit_map<A: MapAccess<'de>>(self, mut m: A) -> Result<SeqKeyPairs, A::Error> {
+                let mut v = Vec::new();
+                while let Some(e) = m.next_entry::<Vec<Spanned<String>>, i64>()? {
+                    v.push(e);
+                }
+                Ok(SeqKeyPairs(v))
+            }
+        }
+        d.deserialize_map(V)
+    }
+}
+
 fn main() {
+    // 5. reader input: multi-byte text in a comment shifts every later character offset
+    let src = "# é\nx\n";
+    let v: Spanned<String> = serde_saphyr::from_reader(std::io::Cursor::new(src.as_bytes())).unwrap();
+    let w: Spanned<String> = serde_saphyr::from_str(src).unwrap();
+    println!(
+        "5. source {src:?}: `x` from_reader char offset {} (line {}, col {}); from_str char offset {} (true {})",
+        v.defined.span().offset(),
+        v.defined.line(),
+        v.defined.column(),
+        w.defined.span().offset(),
+        src.chars().position(|c| c == 'x').unwrap()
+    );
+    // 4. nodes inside a complex key written in place: `referenced` is the key's start
+    let src = "? [aa, bb]\n: 1\n";
+    let d: SeqKeyPairs = serde_saphyr::from_str(src).unwrap();
+    let bb = &d.0[0].0[1];
+    println!(
+        "4. source {src:?}: element {:?} of the key: referenced line {} col {} / defined line {} col {}  (expected referenced == defined == line 1 col 8)",
+        bb.value,
+        bb.referenced.line(),
+        bb.referenced.column(),
+        bb.defined.line(),
+        bb.defined.column()
+    );
+
     // 1. quoted scalar: the reported span runs over trailing blanks and the comment
     let src = "\"x\"   # note\n";
     let v: Spanned<String> = serde_saphyr::from_str(src).unwrap();
